@@ -9,7 +9,8 @@ choice), any i64 fixnum, bignums up to 2^66, rationals over a denominator palett
 Claims per path:  read(write(d)) = d structurally with equal leaves and nothing left over;  write(read(write(d))) is
 the same text;  get_as_cell(put_cell(d)) = d.
 Symbols are drawn from texts that the reader turns into a symbol ("symbols that the reader can produce").
-Inexact numbers are outside (see C16).
+Finite inexact numbers are leaves too; the library's printing of a double is an axiom (skeleton text, see C16 and
+models_fmtnum.write_f64): what is executed is marwood's choice of format and the reader's treatment of the character classes.
 """
 import z3
 from mirsym.values import *
@@ -52,6 +53,10 @@ class Gen:
             c = it.sym_char(s.fresh('c'), w); return cv('Char', c), ('char', c)
         if sx == 'fixnum':
             v = z3.BitVec(s.fresh('n'), 64); return cv('Number', Agg('Number', 0, [v])), ('num', ('fix', v))
+        if sx == 'float':
+            v = z3.FP(s.fresh('f'), z3.Float64())
+            it.assume(z3.Not(z3.Or(z3.fpIsNaN(v), z3.fpIsInf(v))))
+            return cv('Number', Agg('Number', 1, [v])), ('num', ('flo', v))
         if sx == 'bignum':
             v = z3.BitVec(s.fresh('B'), models_num.BW)
             it.assume(z3.Or(z3.And(v > (1 << 63) - 1, v <= N.BIG_BOUND), z3.And(v < -(1 << 63), v >= -N.BIG_BOUND)))      # outside the fixnum range: what the reader produces
@@ -308,7 +313,7 @@ FUNCTIONS = ['cell::<impl Display for Cell>::fmt', 'char::write_escaped_char', '
              'parse::{parse_list,parse_vector,parse_char,parse_string,parse_number}', 'number::Number::parse', 'vm::heap::Heap::{put_cell,get_as_cell,put,alloc}',
              'cell::Cell::{new_list,new_improper_list,is_quote,car,cdr,...}']
 
-LEAVES_QUICK = ['bool', 'nil', 'char', 'fixnum', 'bignum', 'rational', ('string', 0), ('string', 1), ('string', 2), ('symbol', 'a'), ('symbol', 'quote')]
+LEAVES_QUICK = ['bool', 'nil', 'char', 'fixnum', 'bignum', 'rational', 'float', ('string', 0), ('string', 1), ('string', 2), ('symbol', 'a'), ('symbol', 'quote')]
 SMALL = ['fixnum', 'char', ('symbol', 'a'), ('string', 1), 'nil', 'bool']
 
 
@@ -339,6 +344,7 @@ def run(chk, ws, prog, tier, replays):
     for n_ in ('is_initial_identifier', 'is_subsequent_identifier', 'is_subsequent_number', 'is_initial_number', 'is_special_subsequent'):
         prog.pure.add(prog.resolve_crate(n_))
     prog.rlimit = 400000000
+    prog.model_f64_text = True
     jobs = []
     for name, sx in shapes(tier):
         jobs.append(('text ' + name, make_harness(prog, sx), on_panic))
@@ -361,7 +367,7 @@ def run(chk, ws, prog, tier, replays):
             chk.violation(v['key'], (d1 if b1 else d2) + ' | ' + v['what'], v['request'], bool(b1) or bool(b2))
     chk.assumptions += ['integer printers / parsers of std and num are modelled by the defining property of positional notation (see C16)',
                         'datum shapes are enumerated (stated per harness); the leaves are solver variables']
-    chk.outside += ['inexact numbers', 'shapes beyond the enumerated ones (depth > 3, thorough 4; more than 3 elements)', 'strings longer than 2 (thorough 3) chars',
+    chk.outside += ['NaN and infinities; the digits of a printed double (library axiom)', 'shapes beyond the enumerated ones (depth > 3, thorough 4; more than 3 elements)', 'strings longer than 2 (thorough 3) chars',
                     'symbols longer than 3 (thorough 4) chars', 'evaluation of (quote d) through the compiler and the run loop (the heap trip is put_cell / get_as_cell only)']
 
 
